@@ -911,12 +911,136 @@ pub fn run_c15(tier: Tier) -> i32 {
             });
         }
     });
-    let t = total.into_inner().unwrap();
+    let mut t = total.into_inner().unwrap();
+    let (mut sockets_run, mut sockets_unavailable) = (0u64, vec![]);
+    check_sockets(&mut t, &mut sockets_run, &mut sockets_unavailable);
+    t.encodes += sockets_run;
     finish_grid("C15", tier, start, t.encodes + t.decodes + t.chan_histories, t.distinct.len() as u64, &t.failures,
-        json!({"encodes": t.encodes, "decodes": t.decodes, "channel_histories": t.chan_histories, "error_kinds_listed": KINDS.len(), "jobs": jobs.len()}),
-        "message corpus (all variants; ids {0,1,2^63,u64::MAX}; bodies {empty,'a',unicode,64KiB}; every io::ErrorKind constant listed in the harness; trace contexts zero/max/mixed; both sampling decisions) as sequences of length 1-3, through the real serde_transport with Json and Bincode over an in-memory byte medium: every write policy w in {1,2,3,5,8,13,inf} x {with,without} alternating Pending must produce the same bytes; every cut of the byte stream into <=3 read chunks (all positions for streams <=200 bytes, all positions within +-5 of frame boundaries and the stream ends otherwise) x {with,without} Pending between chunks must read the same items then end-of-stream; every truncation inside a frame must yield the complete frames then an error; every ErrorKind round-trips per the 18-entry table; hand-written JSON frames without optional fields decode to the defaults; in-memory channels: all histories over {send,recv,drop writer} up to the depth for unbounded and bounded(0,1,2). distinct_nontrivial = distinct (sequence, codec, fragmentation plan) cases",
+        json!({"encodes": t.encodes, "decodes": t.decodes, "channel_histories": t.chan_histories, "error_kinds_listed": KINDS.len(), "jobs": jobs.len(), "socket_cells_run": sockets_run, "socket_cells_not_run_because_the_sandbox_has_no_such_socket": sockets_unavailable}),
+        "message corpus (all variants; ids {0,1,2^63,u64::MAX}; bodies {empty,'a',unicode,64KiB}; every io::ErrorKind constant listed in the harness; trace contexts zero/max/mixed; both sampling decisions) as sequences of length 1-3, through the real serde_transport with Json and Bincode over an in-memory byte medium: every write policy w in {1,2,3,5,8,13,inf} x {with,without} alternating Pending must produce the same bytes; every cut of the byte stream into <=3 read chunks (all positions for streams <=200 bytes, all positions within +-5 of frame boundaries and the stream ends otherwise) x {with,without} Pending between chunks must read the same items then end-of-stream; every truncation inside a frame must yield the complete frames then an error; every ErrorKind round-trips per the 18-entry table; hand-written JSON frames without optional fields decode to the defaults; the shipped tcp and unix socket transports with {default, 2-byte, 8-byte, little-endian length prefix, frame limit raised to 32 MiB, lowered to 1 KiB} configured alike on the listening and the connecting end x both codecs: bodies of every size class travel intact both ways, then end-of-stream; in-memory channels: all histories over {send,recv,drop writer} up to the depth for unbounded and bounded(0,1,2). distinct_nontrivial = distinct (sequence, codec, fragmentation plan) cases",
         t.samples.iter().map(|c| json!({"case": c})).chain([json!({"case": "bounded(1) history [Send, Send, Recv, DropWriter, Recv, Recv] (one of the channel histories, all enumerated)"})]).collect(),
     )
+}
+
+/// The shipped socket transports (`serde_transport::tcp`, `::unix`) with the framing configured
+/// the same way on the listening and on the connecting end: messages of every size class travel
+/// intact in both directions and the reader sees end-of-stream once the writer is dropped.
+/// Runs on a runtime of its own with real sockets on the loopback interface / a temp directory;
+/// when the sandbox offers neither, the cell is recorded as not run.
+fn check_sockets(st: &mut CStats, sockets_run: &mut u64, sockets_unavailable: &mut Vec<String>) {
+    use futures::{SinkExt, StreamExt};
+    use tokio_util::codec::length_delimited::Builder;
+    let rt = tokio::runtime::Builder::new_current_thread().enable_all().build().unwrap();
+    type Framing = (&'static str, fn(&mut Builder), Vec<usize>);
+    let framings: Vec<Framing> = vec![
+        ("default framing", |_b| {}, vec![0, 1, 300, 70_000]),
+        ("2-byte length prefix", |b| { b.length_field_length(2); }, vec![0, 1, 300, 60_000]),
+        ("8-byte length prefix", |b| { b.length_field_length(8); }, vec![0, 1, 300, 70_000]),
+        ("little-endian length prefix", |b| { b.little_endian(); }, vec![0, 1, 300, 70_000]),
+        ("frame limit raised to 32 MiB", |b| { b.max_frame_length(32 * 1024 * 1024); }, vec![1, 9 * 1024 * 1024]),
+        ("frame limit lowered to 1 KiB", |b| { b.max_frame_length(1024); }, vec![0, 1, 300]),
+    ];
+    let dir = std::env::temp_dir().join(format!("mc-c15-{}", std::process::id()));
+    let _ = std::fs::create_dir_all(&dir);
+    for kind in ["tcp", "unix"] {
+        for codec in [Codec::Json, Codec::Bincode] {
+            for (fi, (fname, apply, sizes)) in framings.iter().enumerate() {
+                let label = format!("{kind} {codec:?} with {fname} on both ends");
+                let sizes = sizes.clone();
+                let apply = *apply;
+                let sock_path = dir.join(format!("s{fi}-{codec:?}.sock"));
+                let _ = std::fs::remove_file(&sock_path);
+                let res: Result<Result<(), String>, tokio::time::error::Elapsed> = rt.block_on(async { tokio::time::timeout(std::time::Duration::from_secs(20), async {
+                    macro_rules! exchange {
+                        ($client:expr, $server:expr) => {{
+                            let mut client = $client;
+                            let mut server = $server;
+                            for (k, n) in sizes.iter().enumerate() {
+                                let body = "x".repeat(*n);
+                                let req = ClientMessage::Request(Request { context: tarpc::context::current(), id: k as u64, message: body.clone() });
+                                // writer and reader run concurrently: a body larger than the socket
+                                // buffers cannot be written while nobody reads
+                                let (sent, got) = tokio::join!(client.send(req), server.next());
+                                sent.map_err(|e| format!("client send of a {n}-byte body: {e}"))?;
+                                match got {
+                                    Some(Ok(ClientMessage::Request(r))) if r.id == k as u64 && r.message == body => {}
+                                    Some(Ok(other)) => return Err(format!("server read {:.80?} instead of request {k} with a {n}-byte body", other)),
+                                    Some(Err(e)) => return Err(format!("server read error after request {k} ({n}-byte body): {e}")),
+                                    None => return Err(format!("server saw end-of-stream instead of request {k}")),
+                                }
+                                let (sent, got) = tokio::join!(server.send(Response { request_id: k as u64, message: Ok(body.clone()) }), client.next());
+                                sent.map_err(|e| format!("server send of a {n}-byte body: {e}"))?;
+                                match got {
+                                    Some(Ok(r)) if r.request_id == k as u64 && r.message.as_ref().ok() == Some(&body) => {}
+                                    Some(Ok(other)) => return Err(format!("client read {:.80?} instead of response {k}", other)),
+                                    Some(Err(e)) => return Err(format!("client read error at response {k}: {e}")),
+                                    None => return Err(format!("client saw end-of-stream instead of response {k}")),
+                                }
+                            }
+                            drop(client);
+                            match server.next().await {
+                                None => Ok(()),
+                                Some(Ok(m)) => Err(format!("extra message after the writer was dropped: {:.80?}", m)),
+                                Some(Err(e)) => Err(format!("error instead of end-of-stream after the writer was dropped: {e}")),
+                            }
+                        }};
+                    }
+                    macro_rules! with_codec {
+                        ($mk:expr) => {{
+                            if kind == "tcp" {
+                                let mut incoming = match tarpc::serde_transport::tcp::listen("127.0.0.1:0", $mk).await {
+                                    Ok(i) => i,
+                                    Err(e) => return Err(format!("UNAVAILABLE {e}")),
+                                };
+                                apply(incoming.config_mut());
+                                let addr = incoming.local_addr();
+                                let mut connect = tarpc::serde_transport::tcp::connect(addr, $mk);
+                                apply(connect.config_mut());
+                                let client: tarpc::serde_transport::Transport<_, Response<String>, ClientMessage<String>, _> = connect.await.map_err(|e| format!("connect: {e}"))?;
+                                let server: tarpc::serde_transport::Transport<_, ClientMessage<String>, Response<String>, _> = incoming.next().await.ok_or("listener ended")?.map_err(|e| format!("accept: {e}"))?;
+                                exchange!(client, server)
+                            } else {
+                                let mut incoming = match tarpc::serde_transport::unix::listen(&sock_path, $mk).await {
+                                    Ok(i) => i,
+                                    Err(e) => return Err(format!("UNAVAILABLE {e}")),
+                                };
+                                apply(incoming.config_mut());
+                                let mut connect = tarpc::serde_transport::unix::connect(&sock_path, $mk);
+                                apply(connect.config_mut());
+                                let client: tarpc::serde_transport::Transport<_, Response<String>, ClientMessage<String>, _> = connect.await.map_err(|e| format!("connect: {e}"))?;
+                                let server: tarpc::serde_transport::Transport<_, ClientMessage<String>, Response<String>, _> = incoming.next().await.ok_or("listener ended")?.map_err(|e| format!("accept: {e}"))?;
+                                exchange!(client, server)
+                            }
+                        }};
+                    }
+                    match codec {
+                        Codec::Json => with_codec!(Json::default),
+                        Codec::Bincode => with_codec!(Bincode::default),
+                    }
+                }).await });
+                let _ = std::fs::remove_file(&sock_path);
+                match res {
+                    Ok(Ok(())) => {
+                        *sockets_run += 1;
+                        st.distinct.insert(hash_of(&("socket", kind, codec, fi)));
+                        if st.samples.len() < 3 {
+                            st.samples.push(format!("{label}: bodies of {sizes:?} bytes each way, then the writer is dropped"));
+                        }
+                    }
+                    Ok(Err(e)) if e.starts_with("UNAVAILABLE") => sockets_unavailable.push(format!("{label}: {e}")),
+                    Ok(Err(e)) => {
+                        *sockets_run += 1;
+                        fail(st, "C15-socket-transport", format!("{label}: {e}"));
+                    }
+                    Err(_) => {
+                        *sockets_run += 1;
+                        fail(st, "C15-socket-transport", format!("{label}: no progress within 20 s"));
+                    }
+                }
+            }
+        }
+    }
+    let _ = std::fs::remove_dir_all(&dir);
 }
 
 fn clone_cm(m: &ClientMessage<String>) -> ClientMessage<String> {
